@@ -368,7 +368,6 @@ func (p *Program) constTableLoad(v ssa.Value) (*constTab, ssa.Value, bool) {
 	return ct, ia.Index, true
 }
 
-
 // ParamMap: position in fn.Params under the confirmed signature → position now, when the signature changed and
 // the k-th parameter of each type can be told apart (nil when the signature is the confirmed one or cannot be matched).
 func (p *Program) ParamMap(fn *ssa.Function) map[int]int {
